@@ -801,6 +801,21 @@ def _chain_worker(conn, ign, b_over, c_over, c_new, dotted, seq):
                     got = repr(e)
                 results.append((f'level {lvl + 1}: inherited start parses {tok!r} as X iff some definition visible at this level accepts it',
                                 got == (tok in expect_x[lvl]), {'got': got}))
+        # histories: compiling a grammar again under the SAME name replaces it for everything created afterwards (`extends` goes by name)
+        if b_over == 'no' and c_over == 'no':
+            a2 = Grammar(descs[0].replace('X = "x"', 'X = "z"'))
+            results.append(('a grammar compiled again under the same name is the one importlib finds from then on', importlib.import_module(names[0]) is a2, None))
+            b2 = Grammar(descs[1])
+            for tok, want in (('z', True), ('x', False)):
+                try:
+                    b2.parse(tok + sp + 'y')
+                    got = True
+                except (b2.ParseError, b2.PartialParseError):
+                    got = False
+                except Exception as e:
+                    got = repr(e)
+                results.append((f'a derived grammar created after its base was compiled again inherits the NEW base ({tok!r} as X: {want})', got == want, {'got': got}))
+            results.append(('the derived grammar created BEFORE keeps the base it was created from', mods[1]._ctx._try_X is vars(mods[0])['_try_X'], None))
         # every ancestor's ignore pattern stays in force in every descendant, next to the descendant's own (patterns ignore ' ' and one letter
         # of their own: a / b / c): the letter of level k is skipped between tokens at level lvl iff k <= lvl and level k declares ignore
         # (only when the BASE declares ignore: the tokens of the probe are literals of inherited base rules, which skip at all only then -
